@@ -16,7 +16,9 @@
 //! witness variant, premature since).  Every verdict (submission, block), every recorded block
 //! ext (fees, cycles, verified), every pool entry (cycles, fee) and a query battery over every
 //! hash / out-point of the history must be identical on the three nodes; block verdicts must
-//! also equal the verdict known by construction.
+//! also equal the verdict known by construction.  A second family does the same for cellbase
+//! maturity: a transaction spending a cellbase is verified where it is mature (pool, branch A)
+//! and then committed too early on a heavier branch B.
 use crate::core::*;
 use crate::forge::*;
 use crate::node::*;
@@ -188,7 +190,7 @@ fn battery(node: &Node, blocks: &[(String, BlockView)], txs: &[TransactionView])
         }
     }
     for (i, tx) in txs.iter().enumerate() {
-        m.insert(format!("{}/get_transaction_with_info", TXS[i]), snap.get_transaction_with_info(&tx.hash()).map(|(t, i)| format!("{}@{}/{}/{}", hx(t.data().as_slice()), hx(i.block_hash.as_slice()), i.block_number, i.index)).unwrap_or("None".into()));
+        m.insert(format!("tx{}/get_transaction_with_info", i), snap.get_transaction_with_info(&tx.hash()).map(|(t, i)| format!("{}@{}/{}/{}", hx(t.data().as_slice()), hx(i.block_hash.as_slice()), i.block_number, i.index)).unwrap_or("None".into()));
     }
     m
 }
@@ -222,6 +224,146 @@ impl Nodes {
             n.push(boot_node(ctx, &cons, i, 0)?);
         }
         Ok(Nodes { cons, txs, forge, n, since_boot: vec![], generation: 0 })
+    }
+
+    /// The maturity world: the nodes under test require one epoch (4 blocks) of cellbase maturity;
+    /// the forge runs with maturity 0, so it can also build a branch that commits a
+    /// cellbase-spending transaction too early - and blocks on top of that block.
+    fn new_maturity(ctx: &Ctx) -> Result<Nodes, String> {
+        let mut strict = WorldOpts::default();
+        strict.cellbase_maturity = ckb_types::core::EpochNumberWithFraction::new(1, 0, 1);
+        let cons = consensus(&strict);
+        let permissive = consensus(&WorldOpts::default());
+        if cons.genesis_hash() != permissive.genesis_hash() {
+            return Err("maturity must not change the genesis block".into());
+        }
+        set_time(time_for_height(0));
+        let forge = Forge::new(&ctx.scratch.join("c14-forge-m"), &permissive)?;
+        let mut n = vec![];
+        for i in 0..3 {
+            n.push(boot_node(ctx, &cons, i, 1000)?);
+        }
+        Ok(Nodes { cons, txs: vec![], forge, n, since_boot: vec![], generation: 1000 })
+    }
+
+    /// c1..c6 | a7..a10 (M, spending the cellbase of c6, committed in a10: mature) | b7..b11 (M
+    /// committed in b9: immature, or b10: mature); the B branch is verified when b11 arrives.
+    fn run_maturity_case(&mut self, m_on_a: bool, m_on_b: u64, submit_at: Option<usize>, report: &mut Report) -> Result<(), String> {
+        let label = json!({"family": "maturity", "m_on_a": m_on_a, "m_on_b": m_on_b, "submit_at": submit_at});
+        let mut clock = self.n.iter().map(|d| d.clock).max().unwrap();
+        for d in self.n.iter_mut() {
+            d.clock = clock;
+            d.reset()?;
+            clock = d.clock;
+        }
+        clock += 20 * BLOCK_INTERVAL_MS;
+        for d in self.n.iter_mut() {
+            d.clock = clock;
+        }
+        set_time(clock);
+        let base = clock - 19 * BLOCK_INTERVAL_MS;
+        self.forge.forget();
+        let cons = self.cons.clone();
+        let mut parent = cons.genesis_hash();
+        let mut common = vec![];
+        for n in 1..=6u64 {
+            let b = self.forge.build_on(&parent, &BlockSpec { miner: 1, timestamp: Some(base + n * BLOCK_INTERVAL_MS), ..Default::default() })?;
+            parent = b.hash();
+            common.push(b);
+        }
+        let c6 = common.last().unwrap().clone();
+        let cb = c6.transactions()[0].clone();
+        if cb.outputs().is_empty() {
+            return Err("block 6 has no cellbase output".into());
+        }
+        let m = simple_tx(&cons, &[out(&cb, 0)], 1, 1_000_000, 77);
+        self.txs = vec![m.clone()];
+        let mut a = vec![];
+        let mut pa = c6.hash();
+        for n in 7..=10u64 {
+            let mut spec = BlockSpec { miner: 1, timestamp: Some(base + n * BLOCK_INTERVAL_MS), ..Default::default() };
+            if n == 8 {
+                spec.proposals = vec![m.proposal_short_id()];
+            }
+            if n == 10 && m_on_a {
+                spec.txs = vec![m.clone()];
+            }
+            let b = self.forge.build_on(&pa, &spec)?;
+            pa = b.hash();
+            a.push(b);
+        }
+        let mut bb = vec![];
+        let mut pb = c6.hash();
+        for n in 7..=11u64 {
+            let mut spec = BlockSpec { miner: 2, timestamp: Some(base + n * BLOCK_INTERVAL_MS + 1), ..Default::default() };
+            if n == 7 {
+                spec.proposals = vec![m.proposal_short_id()];
+            }
+            if n == m_on_b {
+                spec.txs = vec![m.clone()];
+            }
+            let b = self.forge.build_on(&pb, &spec)?;
+            pb = b.hash();
+            bb.push(b);
+        }
+        let mut order: Vec<(String, BlockView)> = vec![];
+        for (i, b) in common.iter().enumerate() {
+            order.push((format!("c{}", i + 1), b.clone()));
+        }
+        for (i, b) in a.iter().enumerate() {
+            order.push((format!("a{}", i + 7), b.clone()));
+        }
+        for (i, b) in bb.iter().enumerate() {
+            order.push((format!("b{}", i + 7), b.clone()));
+        }
+        let all_blocks: Vec<(String, BlockView)> = std::iter::once(("G".to_string(), cons.genesis_block().clone())).chain(order.iter().cloned()).collect();
+        let mut trace: Vec<String> = vec![];
+        let b_invalid = m_on_b == 9;
+        for (k, (name, blk)) in order.iter().enumerate() {
+            if submit_at == Some(k) {
+                let mut answers = vec![];
+                for d in self.n.iter() {
+                    let r = d.node.shared.tx_pool_controller().submit_local_tx(m.clone()).map_err(|e| e.to_string())?;
+                    answers.push(match r {
+                        Ok(_) => "accepted".to_string(),
+                        Err(e) => format!("rejected {}", err_class(&e.to_string())),
+                    });
+                }
+                trace.push(format!("submit M -> {}", answers[0]));
+                if answers[1] != answers[0] || answers[2] != answers[0] {
+                    report.violation("maturity/submit-verdict-differs", format!("after {}: caches off: {}, default caches: {}, capacity 1: {}", trace.join(", "), answers[0], answers[1], answers[2]), label.clone());
+                }
+            }
+            let before_tip = self.n[0].node.tip().number();
+            let mut answers = vec![];
+            for d in self.n.iter() {
+                let r = d.node.process(blk);
+                d.node.wait_pool_synced()?;
+                answers.push(match r {
+                    Ok(b) => format!("Ok({b})"),
+                    Err(e) => format!("Err {}", err_class(&e.to_string())),
+                });
+            }
+            trace.push(format!("block {name} -> {}", answers[0]));
+            report.transitions += 3;
+            if answers[1] != answers[0] || answers[2] != answers[0] {
+                report.violation("maturity/block-verdict-differs", format!("after {}: caches off: {}, default caches: {}, capacity 1: {}", trace.join(", "), answers[0], answers[1], answers[2]), label.clone());
+            }
+            // ground truth: the B branch is verified when it overtakes (b11); it is invalid iff M sits in b9
+            if name == "b11" && blk.number() > before_tip {
+                for (i, ans) in answers.iter().enumerate() {
+                    if b_invalid == ans.starts_with("Ok") {
+                        report.violation(if b_invalid { "maturity/immature-spend-accepted" } else { "maturity/valid-branch-refused" }, format!("after {}: node N{i} answered {ans}; the cellbase of block 6 matures at block 10 and M is committed in b{m_on_b}", trace.join(", ")), label.clone());
+                    }
+                }
+                report.nontrivial.insert(fp(&("maturity", m_on_a, m_on_b, submit_at)));
+            }
+            self.compare(&all_blocks, &trace, &label, report, true, false)?;
+        }
+        report.traces += 1;
+        report.evaluations += 1;
+        report.states.insert(fp(&("maturity", m_on_a, m_on_b, submit_at)));
+        Ok(())
     }
 
     fn maybe_reboot(&mut self, ctx: &Ctx, every: usize) -> Result<(), String> {
@@ -441,7 +583,7 @@ fn cases(tier: Tier) -> Vec<Case> {
     let positions: Vec<u8> = if tier.is_thorough() { vec![NEVER, 0, 2, 3, 4, 7] } else { vec![NEVER, 0, 3] };
     // branch plans
     let mut plans: Vec<((u8, u8), (u8, u8), (u8, u8), bool)> = vec![];
-    let ws: Vec<(u8, u8)> = if tier.is_thorough() { (0..3u8).flat_map(|a| (0..3u8).map(move |b| (a, b))).collect() } else { vec![(0, 0), (1, 0), (2, 0), (1, 2), (2, 1), (0, 2), (1, 1)] };
+    let ws: Vec<(u8, u8)> = if tier.is_thorough() { (0..3u8).flat_map(|a| (0..3u8).map(move |b| (a, b))).collect() } else { vec![(0, 0), (1, 0), (2, 0), (1, 2), (2, 1), (0, 2)] };
     let ss: Vec<(u8, u8)> = if tier.is_thorough() { vec![(0, 0), (4, 0), (3, 0), (0, 3), (4, 3), (0, 4), (4, 4)] } else { vec![(0, 0), (4, 0), (3, 0), (4, 3)] };
     let ts: Vec<(u8, u8)> = if tier.is_thorough() { vec![(0, 0), (1, 2), (2, 1)] } else { vec![(0, 0), (1, 2)] };
     for w in &ws {
@@ -489,7 +631,7 @@ pub fn meta(tier: Tier) -> Meta {
     Meta {
         id: "C14",
         level: "model_checking",
-        rule: "case = (placement of the witness-dependent tx W (good / bad witness, same tx hash) in a3 and b3, placement of the since-locked tx S in block 3 (premature) or 4 on each branch, parent/child pair in one or two blocks, conflicting Ta / Tb, submission position of each relevant tx incl. both witness variants) -> blocks a1..a4 | b1..b5 forged freshly, blocks after an invalid one not built; delivered with the submissions to three real nodes (chain + pool) differing only in caches: all store read caches and the tx verification cache at capacity 0 / default / 1; the default and capacity-1 nodes keep their caches across cases (rebooted every 25 cases). After EVERY event: identical submission verdicts, identical block verdicts and equal to the verdict by construction, identical pool entries (cycles, fee, size), identical answers of a query battery (block, header, ext with fees/cycles/verified, uncles, proposals, extension, tx hashes, number, main-chain flag, epoch, ancestor, hash-by-number, transaction with info, cell status with data through the snapshot's CellProvider) over every block - including rejected ones and blocks that have not arrived yet -, transaction and out-point of the history. non-trivial = a case with an invalid block.",
+        rule: "case = (placement of the witness-dependent tx W (good / bad witness, same tx hash) in a3 and b3, placement of the since-locked tx S in block 3 (premature) or 4 on each branch, parent/child pair in one or two blocks, conflicting Ta / Tb, submission position of each relevant tx incl. both witness variants) -> blocks a1..a4 | b1..b5 forged freshly, blocks after an invalid one not built; delivered with the submissions to three real nodes (chain + pool) differing only in caches: all store read caches and the tx verification cache at capacity 0 / default / 1; the default and capacity-1 nodes keep their caches across cases (rebooted every 25 cases). After EVERY event: identical submission verdicts, identical block verdicts and equal to the verdict by construction, identical pool entries (cycles, fee, size), identical answers of a query battery (block, header, ext with fees/cycles/verified, uncles, proposals, extension, tx hashes, number, main-chain flag, epoch, ancestor, hash-by-number, transaction with info, cell status with data through the snapshot's CellProvider) over every block - including rejected ones and blocks that have not arrived yet -, transaction and out-point of the history. maturity family (strict nodes need one epoch of cellbase maturity; the forge, with maturity 0, can build on an immature spend): c1..c6 | a7..a10 | b7..b11 with M (spending the cellbase of block 6, mature from block 10) in a10 or not, in b9 (immature) / b10 / nowhere, submitted never or after c6 / a9 / a10; same comparisons, and the B branch must be refused at b11 iff M sits in b9. non-trivial = a case with an invalid block.",
         assumptions: &["raw ChainStore::get_cell_data / get_cell_data_hash on dead cells are counted, not judged (public queries reach cell data only through the liveness check)", "the hard-fork schedule is constant (all features active from genesis): VM version selection across a fork boundary with a warm cache is not exercised", "SYSTEM_CELL resolved-dep cache is process global and not varied"],
         bounds: json!({"positions": if tier.is_thorough() { json!(["never", 0, 2, 3, 4, 7]) } else { json!(["never", 0, 3]) }, "nodes": ["caches off", "default", "capacity 1"], "reboot_every": 25}),
     }
@@ -519,8 +661,11 @@ pub fn run(ctx: &Ctx) -> Report {
     }
     let all = cases(ctx.tier);
     report.count("cases_total", if ctx.shard == 0 { all.len() as u64 } else { 0 });
+    // the last worker runs the maturity family only; the others share the main cases
+    let main_workers = if ctx.shards > 1 { ctx.shards - 1 } else { 1 };
+    let maturity_worker = ctx.shards == 1 || ctx.shard == ctx.shards - 1;
     for (i, case) in all.iter().enumerate() {
-        if !ctx.mine(i as u64) {
+        if (ctx.shards > 1 && ctx.shard == ctx.shards - 1) || i % main_workers != ctx.shard % main_workers.max(1) {
             continue;
         }
         if ctx.out_of_time() {
@@ -534,6 +679,31 @@ pub fn run(ctx: &Ctx) -> Report {
         if let Err(e) = nodes.run_case(case, &mut report) {
             report.machinery_errors.push(format!("{case:?}: {e}"));
             break;
+        }
+    }
+    // the maturity family (one worker)
+    if report.cap_hit.is_none() && report.machinery_errors.is_empty() && maturity_worker {
+        for d in nodes.n.drain(..) {
+            d.node.shutdown();
+        }
+        match Nodes::new_maturity(ctx) {
+            Ok(mut mn) => {
+                'outer: for m_on_a in [true, false] {
+                    for m_on_b in [9u64, 10, 0] {
+                        for submit_at in [None, Some(9usize), Some(10), Some(6)] {
+                            if ctx.out_of_time() {
+                                report.cap_hit = Some("maturity family: wall budget".into());
+                                break 'outer;
+                            }
+                            if let Err(e) = mn.run_maturity_case(m_on_a, m_on_b, submit_at, &mut report) {
+                                report.machinery_errors.push(format!("maturity case ({m_on_a}, {m_on_b}, {submit_at:?}): {e}"));
+                                break 'outer;
+                            }
+                        }
+                    }
+                }
+            }
+            Err(e) => report.machinery_errors.push(e),
         }
     }
     report
